@@ -18,6 +18,7 @@ structure RSt where
   illegal : String := ""                             -- first illegal observation (sticky, as in the C harness)
   exact : Bool := false                              -- C04: S = every handle is an independent nested value
   sp : List (Option (List (Option (List Nat)))) := []   -- S of the stage part: per handle, per dimension, the values
+  items : Option Bool := none                        -- C++ part: the handles of this script are item_array (true) / reference_array
   deriving Inhabited
 
 def evStr : Ev → String
@@ -366,7 +367,31 @@ def step (exact : Bool) (st : RSt) (w : List String) : RSt × String :=
                 | none => m2
               render st m3 "ok" "-"
           | none => bad
+        | "iappend", [sh, nlen] =>
+          -- item_array<T>::append(new object, name): insert an empty item at the end, assign the name (refused by the
+          -- identifier when name and terminator exceed 16 bit: the new item is removed again, empty), store the
+          -- reference; on refusal the caller keeps (here: drops) its reference
+          match nat? sh, (if nlen = "-" then some none else (nat? nlen).map some) with
+          | some sh, some nl =>
+            if sh > 1 ∨ st.items = some false ∨ (nl.getD 0) > 100000 then bad
+            else if (kindOf m h).isSome ∧ kindOf m h ≠ some .uref then bad
+            else
+              let st := { st with items := some true }
+              let o := m.objs.length + 1
+              let m0 := { m with objs := m.objs ++ [({ refs := 1, sharable := sh = 1 } : Obj)], log := m.log ++ [Ev.mnew o] }
+              let m1 := match m0.handle h with
+                | some _ => m0
+                | none => (m0.newBuf { ref := 1, kind := .uref, elems := [] }).setHandle h (some m0.bufs.length)
+              let (m2, r) := detach m1 h
+              match r.bind m2.buf?, r with
+              | some x, some b =>
+                if (nl.getD 0) + 1 > 65535 then render st (unrefObj m2 o) "refused" "false"
+                else render st (m2.setBuf b { x with elems := x.elems ++ [Elem.mref (some o)] }) "ok" "true"
+              | _, _ => render st (unrefObj m2 o) "refused" "false"
+          | _, _ => bad
         | "rins", [pos, sh] =>
+          if st.items = some true then bad else
+          let st := { st with items := some false }
           match intArg pos, nat? sh with
           | some pos, some sh =>
             if sh > 1 then bad
@@ -391,6 +416,8 @@ def step (exact : Bool) (st : RSt) (w : List String) : RSt × String :=
                 | _, _ => render st (unrefObj m2 o) "refused" "false"
           | _, _ => bad
         | "rset", [pos, sh] =>
+          if st.items = some true then bad else
+          let st := { st with items := some false }
           match intArg pos, nat? sh with
           | some pos, some sh =>
             if sh > 1 then bad
@@ -414,7 +441,33 @@ def step (exact : Bool) (st : RSt) (w : List String) : RSt × String :=
                  | none => render st (unrefObj m0 o) "refused" "false")
               | _, _ => render st (unrefObj m0 o) "refused" "false"
           | _, _ => bad
+        | "bcopy", [h2] =>
+          -- buffer::copy(from) on the buffers of two reference arrays, in place: references have no copy constructor,
+          -- so only an empty source can be copied (the target's elements are released); otherwise refused unchanged
+          if st.items = some true then bad else
+          match handleArg st.nh h2 with
+          | none => bad
+          | some h2 =>
+            match m.handle h, m.handle h2 with
+            | some b, some a =>
+              if kindOf m h ≠ some .uref ∨ kindOf m h2 ≠ some .uref then bad
+              else
+                let st := { st with items := some false }
+                if a = b then render st m "ok" "true"
+                else
+                  match m.buf? b, m.buf? a with
+                  | some x, some y =>
+                    if ¬ y.elems.isEmpty then render st m "refused" "false"
+                    else
+                      let m1 := x.elems.foldl finiElem m
+                      (match m1.buf? b with
+                       | some z => render st (m1.setBuf b { z with elems := [] }) "ok" "true"
+                       | none => render st m1 "ok" "true")
+                  | _, _ => bad
+            | _, _ => bad
         | "rclear", [] =>
+          if st.items = some true then bad else
+          let st := { st with items := some false }
           if (kindOf m h).isSome ∧ kindOf m h ≠ some .uref then bad
           else
             match m.handle h with
@@ -446,10 +499,31 @@ def step (exact : Bool) (st : RSt) (w : List String) : RSt × String :=
                 render st (finiElem m3 old) "ok" "ptr"
               | _, _ => render st m1 "refused" "null"
           | none => bad
+        | "selfrot", [k] =>
+          match nat? k with
+          | some k =>
+            let n := count m h
+            if n = 0 ∨ n > 64 ∨ k > 1000 ∨ ¬ (kindOf m h = some .tok ∨ kindOf m h = some .arr ∨ kindOf m h = some .mref) then bad
+            else
+              -- the source is a copy of the element bytes, rotated, taken before the call
+              let es0 := (((m.handle h).bind m.buf?).map (·.elems)).getD []
+              let srcs := es0.drop (k % n) ++ es0.take (k % n)
+              let (m1, r) := detach m h
+              match r.bind m1.buf?, r with
+              | some x, some b =>
+                -- as `set`: new elements first, then the replaced ones
+                let old := x.elems.take n
+                let (m2, es) := copyElems m1 srcs
+                let m3 := match m2.buf? b with
+                  | some y => m2.setBuf b { y with elems := es ++ y.elems.drop n }
+                  | none => m2
+                render st (old.foldl finiElem m3) "ok" "ptr"
+              | _, _ => render st m1 "refused" "null"
+          | none => bad
         | "mnew", [k, sh] =>
           match nat? k, nat? sh with
           | some k, some sh =>
-            if k > 8 ∨ sh > 1 then bad
+            if k > 64 ∨ sh > 1 then bad
             else
               let (m1, _) := arrayClone m h none true
               let first := m1.objs.length + 1
